@@ -177,6 +177,15 @@ def runChain (script : HScript) : Nat → Nat → HState → HState
 /-- a request without a script: the first handler keeps the context (answered by a later `done`) -/
 def defaultScript : HScript := [[.keep]]
 
+/-- the kernel's answer to one `write()` on the server side of the connection (oracle input; the
+harness' interposer gives the same answers to the real `write` calls, in order) -/
+inductive WAns
+  | pass              -- everything offered is accepted
+  | short (n : Nat)   -- at most `n` bytes are accepted
+  | again             -- EAGAIN
+  | epipe             -- EPIPE / ECONNRESET: this and every later write on the socket fails
+deriving DecidableEq, Repr
+
 structure Server where
   conn : Conn := {}
   pipe : Pipe := {}
@@ -187,16 +196,68 @@ structure Server where
   halfSpec : Bool := false                -- driver only: half-close handled as the PROPERTY asks (op chalfS), not as coded
   poisoned : Bool := false                -- an exception left a handler and the event loop
   hist : List PipeOp := []                -- ghost: every pipeline operation so far (`pipe = Pipe.run {} hist`)
+  /-- send side (BufferedFd under the TcpConnection): answers the kernel will give to the next `write()` calls
+  (none left = everything is accepted) -/
+  wq : List WAns := []
+  /-- the write event is enabled: a direct write was accepted (wholly or in part) or answered EAGAIN since the
+  last send-complete -/
+  armed : Bool := false
+  /-- a write of the SEND BUFFER failed for good: the buffer never drains, send-complete is never reported -/
+  stuck : Bool := false
 deriving Repr
 
-/-- `commitRespond` followed by what `BufferedFd::send` does at once: a direct write, of which
-the kernel takes as much as fits (everything, for the responses that fit the socket buffer) -/
-def commitOps (p : Pipe) (i : Nat) (r : Bytes) : List PipeOp :=
-  [.commit i r, .kernel (p.handed.length + r.length + (p.resBuff.map (·.2.length)).sum)]
+/-- send-side bookkeeping while the chunks of one commit go through `BufferedFd::send` -/
+structure WSt where
+  sent : Nat
+  handed : Nat
+  broken : Bool
+  stuck : Bool
+  armed : Bool
+  wq : List WAns
+deriving Repr
+
+/-- `BufferedFd::send` of a chunk of `c` bytes: appended when the send buffer is not empty; otherwise
+written directly — what the kernel does not take is buffered and the write event enabled, EAGAIN buffers
+everything, any other error DROPS the chunk ("send fail, drop data") -/
+def directWrite (w : WSt) (c : Nat) : WSt :=
+  if w.broken || w.sent < w.handed then { w with handed := w.handed + c }
+  else match w.wq with
+    | [] => { w with sent := w.sent + c, handed := w.handed + c, armed := true }
+    | .pass :: q => { w with sent := w.sent + c, handed := w.handed + c, armed := true, wq := q }
+    | .short n :: q => { w with sent := w.sent + min n c, handed := w.handed + c, armed := true, wq := q }
+    | .again :: q => { w with handed := w.handed + c, armed := true, wq := q }
+    | .epipe :: q => { w with handed := w.handed + c, broken := true, wq := q }
+
+/-- `BufferedFd::onWriteCallback` in the loop passes that follow, until nothing moves: each pass offers the
+whole send buffer to the kernel. `fuel`: one answer is used per pass, `wq.length + 1` suffices. -/
+def drain : Nat → WSt → WSt
+  | 0, w => w
+  | f + 1, w =>
+    if w.broken || w.handed ≤ w.sent then w else
+    match w.wq with
+    | [] => { w with sent := w.handed }
+    | .pass :: q => { w with sent := w.handed, wq := q }
+    | .short n :: q => drain f { w with sent := w.sent + min n (w.handed - w.sent), wq := q }
+    | .again :: q => drain f { w with wq := q }
+    | .epipe :: q => { w with broken := true, stuck := true, wq := q }
+
+def Server.wst (s : Server) : WSt := ⟨s.pipe.sent, s.pipe.handed.length, s.pipe.wbroken, s.stuck, s.armed, s.wq⟩
+
+/-- pipeline operations that record what the send side did between two `WSt` snapshots -/
+def wOps (w w' : WSt) : List PipeOp :=
+  .kernel (w'.sent - w.sent) :: (if w'.broken && !w.broken then [.writeError] else [])
 
 /-- apply pipeline operations and record them -/
 def Server.emit (s : Server) (ops : List PipeOp) : Server :=
   { s with pipe := s.pipe.run ops, hist := s.hist ++ ops }
+
+/-- `commitRespond` and what `BufferedFd::send` does with every response it hands over (the committed one
+and the parked ones it releases), under the kernel's answers `wq` -/
+def Server.commitW (s : Server) (i : Nat) (r : Bytes) : Server :=
+  let chunks := ((s.pipe.commit i r).written.drop s.pipe.written.length).map (·.2.length)
+  let w := s.wst
+  let w' := chunks.foldl directWrite w
+  { s.emit (.commit i r :: wOps w w') with wq := w'.wq, armed := w'.armed }
 
 structure Delivered where
   idx : Nat
@@ -209,10 +270,9 @@ handlers, then the local `sp_ctx` is released — which commits unless a handler
 def Server.handleReq (s : Server) (last : Bool) : Server × HState :=
   let idx := s.pipe.reqIndex
   let h := runChain ((s.scripts.lookup idx).getD defaultScript) nLevels 0 {}
-  let ops := PipeOp.req last :: ((if h.stopped then [PipeOp.drop] else []) ++
-             (if h.kept then [] else commitOps s.pipe idx h.resp.render))
-  let s1 := s.emit ops
-  (if h.kept then { s1 with outstanding := s1.outstanding ++ [idx], keptResp := (idx, h.resp) :: s1.keptResp } else s1, h)
+  let s0 := s.emit (PipeOp.req last :: (if h.stopped then [PipeOp.drop] else []))
+  (if h.kept then { s0 with outstanding := s0.outstanding ++ [idx], keptResp := (idx, h.resp) :: s0.keptResp }
+   else s0.commitW idx h.resp.render, h)
 
 /-- the receive loop's view of the events of one `recv`: `consumed` bytes of `whole` were parsed
 so far. A handler that throws or stops the server ends the loop (patches/C12-05). Returns the
@@ -235,11 +295,15 @@ def Server.walk (whole : Bytes) : Server → Nat → List Ev → Server × List 
       let (s2, ds, e) := Server.walk whole s1 c evs
       (s2, d :: ds, e)
 
-/-- loop quiescent after an op: the client has read everything the kernel could take; if
-anything was written and the buffer drained, send-complete fires -/
-def Server.quiesce (s : Server) (writtenBefore : Nat) : Server :=
-  let s1 := s.emit [.kernel s.pipe.handed.length]
-  if s1.pipe.written.length > writtenBefore && s1.pipe.sent == s1.pipe.handed.length then s1.emit [.sendComplete]
+/-- the loop passes after an op, until nothing moves: the write event offers the send buffer to the kernel
+(answers from `wq`, then everything is accepted) and the client reads what arrives; an enabled write event that
+finds the send buffer empty reports send-complete — also when the buffer is empty because a direct write failed
+and its data was dropped -/
+def Server.quiesce (s : Server) : Server :=
+  let w := s.wst
+  let w' := drain (w.wq.length + 1) w
+  let s1 : Server := { s.emit (wOps w w') with wq := w'.wq, stuck := w'.stuck, armed := false }
+  if s.armed && !w'.stuck && (s1.pipe.wbroken || s1.pipe.sent == s1.pipe.handed.length) then s1.emit [.sendComplete]
   else s1
 
 /-- client writes a segment; loop runs until quiescent -/
@@ -248,17 +312,18 @@ def Server.seg (cfg : Cfg) (s : Server) (bytes : Bytes) : Server × List Deliver
   else
     let o := recv cfg isLast s.conn bytes
     let (s1, ds, early) := Server.walk (s.conn.buf ++ bytes) { s with conn := o.conn } 0 o.evs
-    if s1.poisoned then (s1.emit [.kernel s1.pipe.handed.length], ds, .threw)   -- no loop pass after the exception
+    if s1.poisoned then (s1, ds, .threw)   -- no loop pass after the exception: direct writes only
     else if !early && o.conn.dead then
-      -- parser failure: responses answered inside the callback were written before the connection is dropped
-      (s1.emit [.kernel s1.pipe.handed.length, .drop], ds, o.status)
-    else (s1.quiesce s.pipe.written.length, ds, o.status)
+      -- parser failure: responses answered inside the callback were written (directly) before the connection is
+      -- dropped; what is still in the send buffer is lost
+      ({ s1.emit [.drop] with armed := false }, ds, o.status)
+    else (s1.quiesce, ds, o.status)
 
 /-- the handler finishes request `i` later (its Context is released); `none` = not outstanding -/
 def Server.done (s : Server) (i : Nat) (r : Respond) : Option Server :=
   if s.outstanding.contains i then
-    let s1 := { s.emit (commitOps s.pipe i r.render) with outstanding := s.outstanding.filter (· != i) }
-    some (s1.quiesce s.pipe.written.length)
+    let s1 := { s.commitW i r.render with outstanding := s.outstanding.filter (· != i) }
+    some s1.quiesce
   else none
 
 /-- the client closes its socket. `pre` = a handler finishes request `i` in the same loop pass;
@@ -266,25 +331,32 @@ def Server.done (s : Server) (i : Nat) (r : Respond) : Option Server :=
 commit's write is attempted first and the client closes without reading. -/
 def Server.cclose (s : Server) (pre : Option (Nat × Respond)) (closeFirst : Bool) : Option Server :=
   if s.cclosed then none else
-  let gone (s' : Server) : Server := { s'.emit [.drop] with cclosed := true, conn := { s.conn with dead := true, buf := [] } }
+  let gone (s' : Server) : Server := { s'.emit [.drop] with cclosed := true, armed := false, conn := { s.conn with dead := true, buf := [] } }
   match pre with
   | none => some (gone s)
   | some (i, r) =>
     if s.outstanding.contains i then
       let s0 := if closeFirst then s.emit [.writeError] else s
-      some { gone (s0.emit (commitOps s0.pipe i r.render)) with outstanding := s.outstanding.filter (· != i) }
+      some { gone (s0.commitW i r.render) with outstanding := s.outstanding.filter (· != i) }
     else none
 
 /-- the client shuts down its sending side only and keeps reading -/
 def Server.chalf (s : Server) : Option Server :=
   if s.cclosed then none
-  else some { s.emit [.halfClose] with conn := { s.conn with dead := true, buf := [] } }
+  else some { s.emit [.halfClose] with armed := false, conn := { s.conn with dead := true, buf := [] } }
 
 /-- `server.stop()` / `server.cleanup()` called by the application OUTSIDE any handler while contexts
 may still be held: every connection is released at once (TcpServer::stop), the handlers' late
 commits find `isClientValid(ct) == false` -/
 def Server.sstop (s : Server) : Server :=
-  { s.emit [.drop] with conn := { s.conn with dead := true, buf := [] } }
+  { s.emit [.drop] with armed := false, conn := { s.conn with dead := true, buf := [] } }
+
+/-- `readv` on the server side of the connection fails (ECONNRESET …) when the client's next segment arrives:
+BufferedFd reports the read error, TcpConnection tears the connection down; the segment is never seen -/
+def Server.rerr (s : Server) : Server := s.sstop
+
+/-- the kernel's answers to the next `write()` calls on the server side (appended to those still unused) -/
+def Server.setWq (s : Server) (q : List WAns) : Server := { s with wq := s.wq ++ q }
 
 /-- every further write on the server side of the connection fails -/
 def Server.wfail (s : Server) : Server := s.emit [.writeError]
@@ -299,6 +371,8 @@ inductive SrvOp
   | chalf
   | wfail
   | sstop
+  | rerr
+  | wq (q : List WAns)
 deriving Repr
 
 def Server.step (s : Server) : SrvOp → Server
@@ -309,5 +383,7 @@ def Server.step (s : Server) : SrvOp → Server
   | .chalf => if s.poisoned then s else (s.chalf).getD s
   | .wfail => if s.poisoned then s else s.wfail
   | .sstop => if s.poisoned then s else s.sstop
+  | .rerr => if s.poisoned then s else s.rerr
+  | .wq q => if s.poisoned then s else s.setWq q
 
 end Tbox.C12
